@@ -2,6 +2,7 @@
 package document
 
 import (
+	"encoding/xml"
 	"fmt"
 	"os"
 	"path/filepath"
@@ -1892,12 +1893,13 @@ func (te *TemplateEngine) replaceVariablesInXMLPart(xmlData []byte, data *Templa
 
 // escapeXMLContent 转义XML特殊字符
 func (te *TemplateEngine) escapeXMLContent(s string) string {
-	s = strings.ReplaceAll(s, "&", "&amp;")
-	s = strings.ReplaceAll(s, "<", "&lt;")
-	s = strings.ReplaceAll(s, ">", "&gt;")
-	s = strings.ReplaceAll(s, "\"", "&quot;")
-	s = strings.ReplaceAll(s, "'", "&apos;")
-	return s
+	// xml.EscapeText 除了转义 & < > " ' 之外，还会把XML 1.0不允许的字符
+	// （控制字符、无效的UTF-8等）替换为U+FFFD，保证页眉页脚部件仍然是格式良好的XML
+	var buf strings.Builder
+	if err := xml.EscapeText(&buf, []byte(s)); err != nil {
+		return ""
+	}
+	return buf.String()
 }
 
 // processDocumentLevelLoops 处理文档级别的循环（跨段落）
